@@ -481,6 +481,9 @@ func (e *Env) Check(c *Created, reads []string) error {
 				}
 			}
 		case "first", "take":
+			// consecutive single-row loads; every loaded record is compared right away and
+			// once more after all later rows were loaded (nothing loaded later may change it)
+			var dests []reflect.Value
 			for i := 0; i < c.N; i++ {
 				dest := reflect.New(M.Type)
 				var err error
@@ -493,6 +496,12 @@ func (e *Env) Check(c *Created, reads []string) error {
 					return fmt.Errorf("%s: record %d: %v", path, i, err)
 				}
 				if err := cmpStruct(path, i, dest.Elem()); err != nil {
+					return err
+				}
+				dests = append(dests, dest)
+			}
+			for i, dest := range dests {
+				if err := cmpStruct(path+" (re-checked after the later loads)", i, dest.Elem()); err != nil {
 					return err
 				}
 			}
